@@ -19,7 +19,7 @@ from multiprocessing import get_context
 
 from .. import core, tlc, validate
 
-NAMES = {"p": "p", "p/q": "p/q é", "p/q/r": "p/q é/r.dir", "z": ".z z"}
+NAMES = {"p": "p", "p/q": "p/q e\u0301", "p/q/r": "p/q e\u0301/r.dir", "z": ".z z"}
 REV = {v: k for k, v in NAMES.items()}
 CONTENTS = {"c1": b"one\n", "c2": b"two two\r\n"}
 OID = {c: hashlib.md5(b).hexdigest() for c, b in CONTENTS.items()}
